@@ -58,6 +58,31 @@ pub fn gen_c02(tier: Tier, seed: u64) -> Case {
     let init = g.r.range(1, n_names as u64) as usize;
     let mut program = g.create_initial(init);
     program.extend(g.program(n_ops, &mix));
+    // a class that seals and evicts journals: crash points inside journal rotation, flush of
+    // recovered memtables and journal deletion
+    if g.r.chance(1, 3) {
+        g.cfg.rotation_threshold = 512;
+        let n = program.len();
+        let mut extra = vec![];
+        for _ in 0..g.r.range(2, 5) {
+            if let Some(ks) = g.live_ks() {
+                let sz = *g.r.pick(&[300u32, 600, 1000]);
+                let comp = g.r.chance(1, 2);
+                let key = g.key();
+                let val = g.val_sized(sz, comp);
+                extra.push(Op::Insert { ks, key, val });
+                extra.push(Op::Rotate { ks });
+                extra.push(Op::WorkerStep);
+                if g.r.chance(1, 2) {
+                    extra.push(Op::WorkerStep);
+                }
+            }
+        }
+        let at = g.r.usize(n.max(1));
+        let tail = program.split_off(at.max(init.min(n)));
+        program.extend(extra);
+        program.extend(tail);
+    }
     let torn = g.r.chance(2, 3);
     let class = format!("{}maint{}{}", if torn { "torn-" } else { "" }, dens, if g.cfg.rotation_threshold > 0 { "+jrot" } else { "" });
     mk_case("C02", seed, &g, program, Fault::Crash { points: None, torn, nested: false }, class)
